@@ -15,6 +15,12 @@ import UVerif.Driver.Cfloat
 import UVerif.Driver.Lns
 import UVerif.Driver.Areal
 
+import UVerif.Driver.Integer
+import UVerif.Driver.Fixpnt
+import UVerif.Driver.Blk
+
+import UVerif.Driver.Elastic
+
 namespace UVerif.Driver
 
 /-- family name ↦ handler. One line per family. -/
@@ -40,6 +46,12 @@ def lookupHandler (fam : String) : Option Handler :=
   | "cfloat" => some cfloatHandler
   | "lns" => some lnsHandler
   | "areal" => some arealHandler
+  | "integer" => some integerHandler
+  | "fixpnt" => some fixpntHandler
+  | "blk" => some blkHandler
+  | "eint" => some eintHandler
+  | "edec" => some edecHandler
+  | "erat" => some eratHandler
   | _ => none
 
 end UVerif.Driver
